@@ -3,9 +3,9 @@ SHELL := /bin/bash
 COQDIR := coq
 J ?= 16
 
-.PHONY: setup coq coqproject coqproject-locked drivers clean
+.PHONY: setup coq coqproject coqproject-locked drivers harnesses clean
 
-setup: coq drivers
+setup: coq drivers harnesses
 
 coqproject:
 	@cd $(COQDIR) && flock .project.lock $(MAKE) -s -C .. coqproject-locked
@@ -24,6 +24,9 @@ coq: coqproject
 
 drivers: coq
 	python3 -c "import sys; sys.path.insert(0,'.'); from vlib import engine; engine.build_all_drivers()" || echo "SETUP NOTE: some drivers did not build"
+
+harnesses:
+	python3 -c "import sys; sys.path.insert(0,'.'); from vlib import engine; engine.build_all_harnesses()" || echo "SETUP NOTE: some harnesses did not build"
 
 clean:
 	cd $(COQDIR) && { [ -f Makefile ] && $(MAKE) clean; rm -f Makefile Makefile.conf _CoqProject *.ml *.mli .build.lock .project.lock; true; }
